@@ -191,12 +191,15 @@ def c13():
 def c14():
     return dict(
         id="C14", level="exploration", engine="rtrsim",
-        builds=[_sim_build(), _sim_build("msan")],
+        builds=[_sim_build(), _sim_build("msan"),
+                dict(name="mgrmon", config="asan", harness=["mgrmon.c"] + SIM_SRCS[1:],
+                     wraps=WRAP_SIM + ["rtr_start", "rtr_stop", "rtr_change_socket_state"], lib_cflags=["--param", "asan-stack=0"])],
         runs=[_sim_run("defect", 7200, 108000), _sim_run("conv", 2500, 50000), _sim_run("version", 800, 16000),
               _sim_run("defect", 2160, 21600, cfg="msan"), _sim_run("conv", 600, 12000, cfg="msan"),
-              _sim_run("faults", 1024, 10240, cfg="msan")],
+              _sim_run("faults", 1024, 10240, cfg="msan"),
+              dict(name="several-sockets", bin="mgrmon", config="asan", mode="fail", cases=T(1600, 32000), chunks=32, timeout=1800)],
         floors={"wire/pdus_parsed": T(100000, 2000000), "c14/first_reports_judged": T(3000, 50000),
-                "c14/encapsulated_copies_checked": T(3000, 50000)},
+                "c14/encapsulated_copies_checked": T(3000, 50000), "c15/socket_behaviour/sync-ok": T(500, 10000)},
         rule=(SIM_RULE_COMMON + "Wire monitor on the concatenation of all successful send_fp chunks per connection (the mock "
               "accepts 1-byte, 3-byte, random and full writes): the stream must frame into complete PDUs of the negotiated "
               "version, type 1/2/10, length field == bytes sent and <= 3248; a connection may not end inside a PDU unless a write "
@@ -205,7 +208,10 @@ def c14():
               "code of one of the PDUs the reference validator found in violation (unknown type: 0 or 5) and its encapsulated "
               "bytes must be a byte-exact prefix of that PDU as sent; a delivered violation must draw a report; no report in "
               "reply to an Error Report and none when the response is clean. MSan build: every byte handed to send_fp must have "
-              "clean shadow (__msan_test_shadow). Distinct by scenario trace hash / judged exchange."),
+              "clean shadow (__msan_test_shadow). several-sockets: the fail-over engine of C15 (2-8 sockets of one manager, each a "
+              "real FSM thread over its own cache; exactly one thread runs between two transport calls and the seeded harness picks "
+              "which; half of the sockets take a PDU in several writes, so another socket's PDUs go out between two pieces of one PDU) "
+              "with the same wire monitor on every connection. Distinct by scenario trace hash / judged exchange."),
         assumptions=SIM_ASSUME + ["MSan: libcrypto is linked but never executed in these runs"],
     )
 
